@@ -1,7 +1,7 @@
 ---------------------------- MODULE TraceFeatures ----------------------------
 (* C17: one event per built configuration; accepted iff every one of the 28              *)
 (* configurations of MC_Features is present exactly once, each built without warnings as  *)
-(* a no_std crate (no undefined std symbols in the library), the probe that references    *)
+(* a no_std crate (no undefined std symbols in the library, and a freestanding no_std consumer with its own panic handler compiles against it), the probe that references    *)
 (* exactly the items of the model compiled, every negative probe failed to compile, and   *)
 (* every enabled set's behaviour digest equals the default configuration's.               *)
 EXTENDS Integers, FiniteSets, Sequences, TLC, Json, IOUtils
@@ -12,7 +12,7 @@ Builds == { Rec[i] : i \in { j \in 1 .. Len(Rec) : Rec[j].ev = "Build" } }
 DefaultB == CHOOSE e \in Builds : Key(e) = << << 1, 1, 1 >>, TRUE, FALSE >>
 SetNames == << "44", "65", "87" >>
 BuildOK(e) ==
-  /\ e.lib_ok /\ e.warnings = 0 /\ e.std_symbols = 0 /\ e.probe_ok
+  /\ e.lib_ok /\ e.warnings = 0 /\ e.std_symbols = 0 /\ e.nostd_consumer_ok /\ e.probe_ok
   /\ \A i \in 1 .. 3 : (e.sets[i] = 1) <=> (SetNames[i] \in DOMAIN e.digests)
   \* ordinary behaviour: equal to the DEFAULT configuration's, in every configuration
   /\ \A i \in 1 .. 3 : e.sets[i] = 1 => e.digests[SetNames[i]] = DefaultB.digests[SetNames[i]]
